@@ -60,6 +60,8 @@ def proj_accept(op, line):
         return " ".join(w[:2]) if w[0] == "acc" else "rej"
     if w and w[0] == "s":
         return "s"
+    if w and w[0].startswith("v="):
+        return w[1]          # the model also evaluates the (uncompilable) generic predicate: v=…
     return line
 
 
@@ -302,6 +304,229 @@ def run_c24(ctx, replay_path=None):
     return res
 
 
+# ------------------------------------------------------------------------------------------------
+# C25
+# ------------------------------------------------------------------------------------------------
+DEFAULT_LOCAL = 2 * 0xc0ffee112233 + 1
+
+
+def addr_bytes(a):
+    return (a >> 1).to_bytes(6, "little")
+
+
+def connect_ind(local, init, length=34, pdu_type=5, body_len=34, tx=None, rx=None, rfu=0):
+    h0 = pdu_type | rfu | (0x40 if (init & 1 if tx is None else tx) else 0) | (0x80 if (local & 1 if rx is None else rx) else 0)
+    body = addr_bytes(init) + addr_bytes(local) + bytes((7 * i + 3) & 0xff for i in range(22))
+    body = (body + bytes(64))[:body_len]
+    return bytes([h0, length & 0xff]) + body
+
+
+def scan_req(local, scanner, length=12, pdu_type=3, body_len=12, tx=None, rx=None):
+    h0 = pdu_type | (0x40 if (scanner & 1 if tx is None else tx) else 0) | (0x80 if (local & 1 if rx is None else rx) else 0)
+    body = (addr_bytes(scanner) + addr_bytes(local) + bytes(64))[:body_len]
+    return bytes([h0, length & 0xff]) + body
+
+
+def gen_c25_session(rng, cfg):
+    """one advertiser configuration, random local / directed address, white list and filters, then
+    requests: valid ones and single field mutations of valid ones (+ a few random PDUs)"""
+    types = CFG[cfg][4]
+    ops = ["reset %d" % cfg]
+    universe = [rng.randrange(2, 1 << 49) for _ in range(4)]
+    universe.append(universe[0] ^ 1)            # same 48 bits, other address type
+    universe.append(universe[1] ^ 2)            # differs in one address bit
+    local = rng.choice([DEFAULT_LOCAL, rng.randrange(2, 1 << 49), rng.randrange(2, 1 << 49) | 1])
+    if local != DEFAULT_LOCAL:
+        ops.append("local %d" % local)
+    target = None
+    if 1 in types:
+        target = rng.choice(universe + [1, 0])
+        ops.append("direct %d" % target)
+    if len(types) > 1:
+        ops.append("change %d" % rng.choice(types))
+    if not CFG[cfg][3]:
+        ops.append("start")
+    ops.append("llstart")
+    for a in rng.sample(universe, rng.randrange(0, 5)):
+        ops.append("wladd %d" % a)
+    ops.append("filter %d" % rng.randrange(2))
+    ops.append("scanfilter %d" % rng.randrange(2))
+    for _ in range(rng.randrange(6, 16)):
+        init = rng.choice(universe + ([target] if target is not None else []))
+        r = rng.random()
+        kw = {}
+        loc = local
+        if r < 0.35:
+            pass                                         # valid request
+        elif r < 0.42:
+            kw["length"] = rng.choice([0, 12, 33, 35, 34 + 64, 34 + 128, 255])
+        elif r < 0.49:
+            kw["pdu_type"] = rng.choice([0, 1, 2, 3, 4, 6, 7, 13, 15])
+        elif r < 0.56:
+            kw["body_len"] = rng.choice([0, 6, 12, 33, 35, 37])
+        elif r < 0.63:
+            loc = local ^ (2 << rng.randrange(48))       # one AdvA bit wrong
+        elif r < 0.70:
+            kw["rx"] = 1 - (local & 1)                   # wrong RxAdd
+        elif r < 0.77:
+            kw["tx"] = 1 - (init & 1)                    # TxAdd flipped: initiator of the other type
+        elif r < 0.84:
+            init = init ^ (2 << rng.randrange(48))       # one InitA bit changed
+        elif r < 0.88:
+            kw["rfu"] = rng.choice([0x10, 0x20, 0x30])
+        kind = rng.random()
+        if r >= 0.93:
+            pdu = bytes(rng.randrange(256) for _ in range(rng.choice([2, 3, 14, 36, 36, 40])))
+            ops.append("%s %s" % (rng.choice(["recv", "recvfull", "scanreq"]), pdu.hex()))
+        elif kind < 0.7:
+            pdu = connect_ind(loc, init, **kw)
+            ops.append("%s %s" % ("recv" if rng.random() < 0.7 else "recvfull", pdu.hex()))
+        else:
+            kw.pop("rfu", None)
+            if "length" in kw:
+                kw["length"] = rng.choice([0, 11, 13, 34, 12 + 64])
+            if "body_len" in kw:
+                kw["body_len"] = rng.choice([0, 6, 11, 13, 34])
+            if "pdu_type" in kw:
+                kw["pdu_type"] = rng.choice([0, 1, 2, 4, 5, 6])
+            ops.append("scanreq %s" % scan_req(loc, init, **kw).hex())
+        if rng.random() < 0.15:
+            ops.append(rng.choice(["filter %d" % rng.randrange(2), "scanfilter %d" % rng.randrange(2),
+                                   "wlremove %d" % rng.choice(universe), "wladd %d" % rng.choice(universe)]))
+        if len(types) > 1 and rng.random() < 0.1:
+            ops.append("change %d" % rng.choice(types))
+            ops.append("timeout")
+    return ops
+
+
+def monitor_c25(ops, outs):
+    """independent oracle: the property statement on octets, with Python sets; returns (key, what, k)"""
+    hits = []
+    cfg = int(ops[0].split()[1])
+    types = CFG[cfg][4]
+    local = DEFAULT_LOCAL
+    wl, conn_filter, scan_filter = set(), False, False
+    target = None            # directed advertising address (None = not valid)
+    selected, proposal = types[0], types[0]
+    for k, (op, out) in enumerate(zip(ops, outs)):
+        w = op.split()
+        if out == "bad-op":
+            continue
+        if w[0] == "local":
+            local = int(w[1]) % (1 << 49)
+        elif w[0] == "direct":
+            a = int(w[1]) % (1 << 49)
+            target = a if a != 1 else None
+            if out.startswith("s "):
+                selected = proposal
+        elif w[0] == "change":
+            proposal = int(w[1])
+        elif w[0] in ("llstart", "timeout", "start", "startn"):
+            if w[0] in ("llstart", "timeout") or out.startswith("s "):
+                selected = proposal
+        elif w[0] == "wladd" and out == "1":
+            wl.add(int(w[1]) % (1 << 49))
+        elif w[0] == "wlremove":
+            wl.discard(int(w[1]) % (1 << 49))
+        elif w[0] == "filter":
+            conn_filter = w[1] == "1"
+        elif w[0] == "scanfilter":
+            scan_filter = w[1] == "1"
+        elif w[0] in ("recv", "recvfull"):
+            pdu = bytes.fromhex(w[1])
+            if w[0] == "recvfull":
+                pdu = (pdu + bytes(36))[:36]
+            h0, ln, body = pdu[0], pdu[1], pdu[2:]
+            init = None
+            ok = len(body) == 34 and (h0 & 0x0f) == 5 and (ln & 0x3f) == 34
+            if ok:
+                init = int.from_bytes(body[0:6], "little") * 2 + (1 if h0 & 0x40 else 0)
+                adva = int.from_bytes(body[6:12], "little") * 2 + (1 if h0 & 0x80 else 0)
+                ok = adva == local
+            if ok:
+                if selected == 0:
+                    pass
+                elif selected == 1:
+                    ok = target is not None and init == target
+                else:
+                    ok = False
+            if ok:
+                ok = (not conn_filter) or init in wl
+            got = out.split()[0] == "acc"
+            if got and not ok:
+                hits.append(("C25:connect-accepted-wrongly:type-%d" % selected, "op %d `%s`: connection entered (%s)" % (k, op, out), k))
+            elif ok and not got:
+                hits.append(("C25:connect-rejected-wrongly:type-%d" % selected, "op %d `%s`: proper request not accepted" % (k, op), k))
+            elif got and int(out.split()[1]) != init:
+                hits.append(("C25:connect-wrong-remote-address", "op %d `%s`: reported initiator %s" % (k, op, out), k))
+            if not got:
+                selected = proposal      # handle_adv_timeout
+        elif w[0] == "scanreq":
+            pdu = bytes.fromhex(w[1])
+            h0, ln, body = pdu[0], pdu[1], pdu[2:]
+            valid = len(body) == 12 and (h0 & 0x0f) == 3 and (ln & 0x3f) == 12 and \
+                int.from_bytes(body[6:12], "little") * 2 + (1 if h0 & 0x80 else 0) == local
+            scanner = int.from_bytes((body + bytes(6))[0:6], "little") * 2 + (1 if h0 & 0x40 else 0)
+            infilter = (not scan_filter) or scanner in wl
+            exp = "f=%d" % infilter
+            if out != exp:
+                hits.append(("C25:scan-filter", "op %d `%s`: got %s, expected %s" % (k, op, out, exp), k))
+    return hits
+
+
+def run_c25(ctx, replay_path=None):
+    res = Result()
+    res.rule = ("sessions = reset <cfg> (advertiser with connectable undirected / directed / scannable / non-connectable type and the multiple "
+                "type advertiser, white_list<4>) + random local address, directed address, white list, connection/scan filter, then CONNECT_IND "
+                "and SCAN_REQ PDUs: valid ones and single field mutations (length field, PDU type, body size, one AdvA bit, RxAdd, TxAdd, one "
+                "InitA bit, RFU bits) + random PDUs, delivered in an exactly sized buffer (recv) or in the 36 octet receive buffer (recvfull); "
+                "accept/reject (+ reported initiator) of the real handle_adv_receive and the verdict of the real is_valid_scan_request + "
+                "is_scan_request_in_filter are compared with the Lean model and with an independent Python oracle working on octets and sets; "
+                "non-trivial = sessions with at least one accepted and one rejected request")
+    sessions = [ops for _, ops in ctx.corpus()]
+    nc = len(sessions)
+    n = 4000 if ctx.thorough else 400
+    for i in range(n):
+        sessions.append(gen_c25_session(ctx.rng, [0, 5, 4, 0, 5, 4, 6, 7, 1, 4][i % 10]))
+    impl, model, dis = ctx.run_pair(sessions, proj_accept)
+    for d in dis:
+        ops = ctx.shrink_disagreement(sessions[d["session"]], proj_accept) if len(res.disagreements) < 2 else sessions[d["session"]]
+        res.disagreements.append(dict(d, ops=ops))
+    seen = set()
+    for ops, r in zip(sessions, impl):
+        outs = r["out"]
+        res.sessions += 1
+        res.evaluations += len(outs)
+        res.count("cfg:%s" % ops[0].split()[1])
+        acc = sum(1 for o in outs if o.startswith("acc"))
+        rej = sum(1 for o in outs if o.startswith("rej"))
+        res.count("connect:accepted", acc)
+        res.count("connect:rejected", rej)
+        for o in outs:
+            if o.startswith("f="):
+                res.count("scan-filter:" + o)
+        if acc and rej:
+            res.distinct.add(hash(tuple(ops)))
+        if r["crash"]:
+            res.failures.append({"key": "C25:crash:" + r["crash"].split(" @")[0], "what": r["crash"], "ops": ops[:len(outs) + 1]})
+            continue
+        for key, what, k in monitor_c25(ops, outs):
+            res.count("failure:" + key)
+            if key in seen:
+                continue
+            seen.add(key)
+
+            def fails(cand, key=key):
+                o = ctx.run_impl([cand])[0]
+                return any(h[0] == key for h in monitor_c25(cand, o["out"]))
+            res.failures.append({"key": key, "what": what, "ops": ctx.shrink(ops[:k + 1], fails, budget=60)})
+    res.samples = [" ; ".join(s[:10])[:400] for s in sessions[nc:nc + 2]]
+    res.extra["scan_request_half"] = ("only the scan filter of white_list.hpp is tied to the code; advertising_type_base::is_valid_scan_request "
+                                      "is dead code that does not compile when instantiated, the nRF52 ISR predicate "
+                                      "(nrf52.hpp::is_valid_scan_request) is not built on the host: both are modelled only")
+    return res
+
+
 PROPS = {
     "C24": dict(
         theorems=["BluetoeModel.Adv.inv_reachable", "BluetoeModel.Adv.timeout_channel_successor",
@@ -313,5 +538,19 @@ PROPS = {
         harness_keys=["default"],
         level="proof",
         design_ref="§5 C24",
+    ),
+    "C25": dict(
+        theorems=["BluetoeModel.Adv.connect_accepted_iff", "BluetoeModel.Adv.validConnectBase_iff",
+                  "BluetoeModel.Adv.nonconnectable_never_accepts", "BluetoeModel.Adv.scan_valid_iff",
+                  "BluetoeModel.Adv.nrf_scan_partial"],
+        witnesses=["BluetoeModel.Adv.nrf_scan_filter_witness"],
+        imports=["BluetoeModel.Adv.PropsC25"],
+        run=run_c25,
+        harness_keys=["default"],
+        level="partial",
+        design_ref="§5 C25",
+        assumptions=["connect half: handle_adv_receive of advertising.hpp + white_list<4> driven through a mock link layer (the real "
+                     "link_layer<> calls exactly this function in adv_received)",
+                     "scan half: the radio answers scan requests; the nRF52 ISR predicate is modelled only"],
     ),
 }
